@@ -55,6 +55,8 @@ def run(sid, budget):
             "caught_by": [p for p in PROPS if p in res and res[p]["caught"]],
             "checks_not_run": [p for p in PROPS if p not in res],
             "budget_s": budget,
+            "machinery_commit": subprocess.run(["git", "-C", ROOT, "rev-parse", "--short", "HEAD"], capture_output=True, text=True).stdout.strip(),
+            "workers_per_check": os.environ.get("MATRIX_WORKERS", "16"),
         }
         json.dump(meta, open(os.path.join(d, "meta.json"), "w"), indent=1)
         return meta
